@@ -49,8 +49,15 @@ def case_strategy(draw):
         if used and draw(st.booleans()):
             for v in draw(st.lists(st.sampled_from(used), min_size=1, max_size=2, unique=True)):
                 inject[v] = sorted(draw(st.sets(st.integers(0, len(rows) - 1), min_size=1, max_size=len(rows))))
-        history.append({"rows": rows, "inject": inject, "from": draw(st.sampled_from(["training", "previous", "previous"]))})
-    return {"design": d, "frame": spec, "history": history}
+        history.append({"rows": rows, "inject": inject, "from": draw(st.sampled_from(["training", "previous", "previous"])),
+                        "new_index": draw(st.sampled_from([None, None, "reversed", "offset", "strings", "repeated"]))})
+    holes = None
+    numeric_used = sorted(c for c in rich.used_columns(d) if frames.column(spec, c)["kind"] == "float" and c in ("x", "z", "y", "p"))
+    if numeric_used and draw(st.integers(0, 3)) == 0:
+        # one observation is incomplete in a variable of the formula; another one only in a column the formula does not use
+        r1 = draw(st.integers(0, n - 1))
+        holes = {"column": draw(st.sampled_from(numeric_used)), "row": r1, "unused_row": (r1 + 1 + draw(st.integers(0, n - 2))) % n}
+    return {"design": d, "frame": spec, "history": history, "holes": holes}
 
 
 def inspect_matrix(ctx, case, where, m, kind, nrows):
@@ -136,6 +143,15 @@ def judge(ctx, case):
     formula = d["formula"]
     frame = frames.build(spec)
     ns = rich.namespace_for(frame)
+    retained = len(frame)
+    h_ = case.get("holes")
+    if h_ and any(set(c["values"][:h_["row"]] + c["values"][h_["row"] + 1:]) != set(c["values"]) for c in spec["cols"] if c["kind"] != "float"):
+        h_ = None  # the incomplete observation is the only one of some level: the design would be another one
+    if h_:
+        frame = frame.copy()
+        frame.iloc[h_["row"], frame.columns.get_loc(h_["column"])] = np.nan
+        frame["junk"] = [np.nan if i == h_["unused_row"] else float(i) for i in range(len(frame))]
+        retained = len(frame) - 1  # exactly the observation that is incomplete in a variable of the formula goes
     config["EVAL_UNSEEN_CATEGORIES"] = "error"
     try:
         with core.Guard():
@@ -144,7 +160,7 @@ def judge(ctx, case):
         ctx.count(core.canon(case), False, ["build_failed"])
         ctx.fail("build", case, f"{formula!r} raised {type(e).__name__}: {e}", core.exc_key(e))
         return
-    n = len(frame)
+    n = retained
     widths = set()
     for part in (dm.common, dm.group):
         if part is not None:
@@ -205,7 +221,7 @@ def judge(ctx, case):
     prev = {"common": dm.common, "group": dm.group}
     try:
         for step, h in enumerate(case["history"]):
-            sub = {"frame": spec, "rows": h["rows"], "inject": h["inject"], "as_categorical": False}
+            sub = {"frame": spec, "rows": h["rows"], "inject": h["inject"], "as_categorical": False, "new_index": h.get("new_index")}
             _, new = c10.new_frames(sub)
             config["EVAL_UNSEEN_CATEGORIES"] = "silent" if h["inject"] else "error"
             for kind in ("common", "group"):
